@@ -70,6 +70,8 @@ theorem keys_exactly_expected (c : Cfg) (offsets : List Nat) (out : Out)
 def RegularSlices (q : SReq) : Prop :=
   ∀ s ∈ slices q.offsets, s.2.2 % q.ncores = 0 ∨ s.2.1 + s.2.2 = q.fullDepth
 
+instance (q : SReq) : Decidable (RegularSlices q) := by unfold RegularSlices; infer_instance
+
 /- Full statement (FALSE of the unchanged code, see `scale_count_witness`):
      ∀ c offsets out, ValidReq (reqOf c offsets) → biases/scales have one entry per channel →
        encodeTensor c offsets = .ok out →
@@ -219,5 +221,120 @@ theorem channels_once (c : Cfg) (offsets : List Nat) (out : Out)
     intro ch hc
     rw [h1] at hc
     exact hbound e he ch hc
+
+/-! ## 5. double-buffer sizes -/
+
+/-- For every configuration and offset list: the bytes of depth slice `i` (the sum over its ranges of
+    the 16-byte rounded `total_bytes`, which is what `create_dma_op` copies and equals the growth of the
+    stream during that slice) fit into `double_buffer_sizes[i mod 2]`. -/
+theorem double_buffer_bound (c : Cfg) (offsets : List Nat) (out : Out) (h : encodeTensor c offsets = .ok out) :
+    ∀ i, dmaSum (out.rawRanges.filter (fun r => r.slice = i)) ≤ getDbs out.dbs i :=
+  (encodeTensor_facts c offsets out h).dbs
+
+/-- Two buffers of the recorded sizes hold every slice (slice `i` goes to buffer `i mod 2`) … -/
+theorem double_buffer_holds (c : Cfg) (offsets : List Nat) (out : Out) (h : encodeTensor c offsets = .ok out) (i : Nat) :
+    dmaSum (out.rawRanges.filter (fun r => r.slice = i)) ≤ [out.dbs.1, out.dbs.2].getD (i % 2) 0 := by
+  have hb := double_buffer_bound c offsets out h i
+  unfold getDbs at hb
+  by_cases hpar : i % 2 = 0
+  · rw [if_pos hpar] at hb; rw [hpar]; exact hb
+  · rw [if_neg hpar] at hb
+    have : i % 2 = 1 := by omega
+    rw [this]; exact hb
+
+/-- … but **one** buffer of `double_buffer_sizes[0]` bytes — what `propose_weight_buffering` allocates
+    when double buffering does not fit yet several slices remain — does not: witness with slices
+    `[0,1,3]`, sizes (32, 64). (Reproduced on the scheduler by the check: known finding.) -/
+theorem single_buffer_witness :
+    (encodeTensor unevenCfg [0, 1, 3]).toOption.map (fun out => out.dbs) = some (32, 64) ∧
+    ¬ BuffersOk [32] [32, 64] ∧ BuffersOk [32, 64] [32, 64] := by
+  decide +kernel
+
+/-! ## 6. address ranges handed to the command stream generator -/
+
+/-- `create_weights` on the tensor itself and `create_dma_op` reading from it: every weight and scale
+    address range is 16-byte aligned, inside `[address, address + len(buffer))` and equals the recorded
+    section of a range with the requested key; the DMA source starts at core 0's range. -/
+theorem address_ranges_inside (c : Cfg) (offsets : List Nat) (out : Out) (h : encodeTensor c offsets = .ok out)
+    (n srcAddr depth : Nat) (hsrc : srcAddr % 16 = 0) (ws bs : List AddrRange)
+    (hw : createWeights n out.rawRanges srcAddr none none depth = some (ws, bs)) :
+    (∀ a ∈ ws, a.address % 16 = 0 ∧ srcAddr ≤ a.address ∧ a.address + a.length ≤ srcAddr + out.stream.length ∧
+        ∃ r ∈ out.rawRanges, r.depth = depth ∧ a = ⟨srcAddr + r.offset + r.weightOffset, r.weightBytes⟩) ∧
+    (∀ a ∈ bs, a.address % 16 = 0 ∧ srcAddr ≤ a.address ∧ a.address + a.length ≤ srcAddr + out.stream.length ∧
+        ∃ r ∈ out.rawRanges, r.depth = depth ∧ a = ⟨srcAddr + r.offset, WeightLayout.roundUp16 r.scaleBytes⟩) := by
+  have hf := encodeTensor_facts c offsets out h
+  exact createWeightsLoop_direct out.rawRanges out.stream.length srcAddr depth
+    (fun r hr => (hf.good.rng r hr).num) hsrc hf.good.aligned _ 0 ws bs hw
+
+/- Full statement for the buffered path: the ranges `create_weights` derives for a buffered copy lie inside
+   the buffer tensor of `double_buffer_sizes[i mod 2]` bytes.  Proved below: they lie inside the bytes
+   `create_dma_op` writes for the same slice (`address_ranges_buffered_partial`), and the ranges *created* for
+   slice `i` sum to at most `double_buffer_sizes[i mod 2]` (`double_buffer_bound`).  Missing link: that the
+   ranges `findRange` returns for `(core, depth_offset)` are exactly the ranges created for that slice —
+   true for strictly increasing offsets, checked on the implementation by the harness (`wl_addrspec`). -/
+
+/-- Buffered path: addresses are relative to the buffer, `core_offset` advancing by the rounded range
+    size; every range lies inside the `sz` bytes the DMA of `create_dma_op` writes at the buffer address. -/
+theorem address_ranges_buffered_partial (c : Cfg) (offsets : List Nat) (out : Out) (h : encodeTensor c offsets = .ok out)
+    (n srcAddr buf depth : Nat) (hbuf : buf % 16 = 0) (ws bs : List AddrRange) (s d : AddrRange)
+    (hw : createWeights n out.rawRanges srcAddr (some buf) none depth = some (ws, bs))
+    (hd : createDmaOp n out.rawRanges srcAddr buf depth = some (s, d)) :
+    d.address = buf ∧ d.length = s.length ∧
+    ∀ a ∈ ws ++ bs, a.address % 16 = 0 ∧ d.address ≤ a.address ∧ a.address + a.length ≤ d.address + d.length := by
+  have hf := encodeTensor_facts c offsets out h
+  obtain ⟨hlen, rfl, _⟩ := createDmaOp_spec n out.rawRanges srcAddr buf depth s d hd
+  refine ⟨rfl, rfl, ?_⟩
+  intro a ha
+  have := createWeightsLoop_buffered out.rawRanges out.stream.length srcAddr depth buf
+    (fun r hr => (hf.good.rng r hr).num) hbuf _ 0 ws bs rfl hw a ha
+  simp only [hlen]; omega
+
+/-! ## 7. the compression cache -/
+
+/-- Answering from a table keyed by `key` is correct for **every** sequence of admissible requests
+    iff the fresh result is a function of the key on admissible requests. -/
+theorem cache_key_function {ρ κ β : Type} [DecidableEq κ] (key : ρ → κ) (fresh : ρ → β) (S : ρ → Prop) :
+    (∀ reqs : List ρ, (∀ r ∈ reqs, S r) → ∀ p ∈ cachedRun key fresh [] reqs, p.2 = fresh p.1) ↔
+    (∀ a b, S a → S b → key a = key b → fresh a = fresh b) := by
+  constructor
+  · intro hall a b ha hb hk
+    have := hall [a, b] (by intro r hr; simp at hr; rcases hr with rfl | rfl <;> assumption) (b, fresh a)
+      (by rw [cachedRun_two key fresh a b hk]; simp)
+    exact this
+  · intro hfun reqs hS
+    exact cachedRun_sound key fresh S hfun reqs [] (by intro e he; simp at he) hS
+
+/-- What `WeightCompressionConfig` leaves out: the weight key is blind to the accelerator, the IFM bit
+    depth, the transpose-convolution flip, the depth offsets beyond their `hash(str(..))`, the block
+    depth beyond its clamp, and to the data behind the two value ids. -/
+theorem cache_key_omits (r : Req) (acc bits : Nat) (flip : Bool) (offs : List Nat) (bd wdata sdata : Nat) :
+    wccKey { r with accelerator := acc, ifmBits := bits, opFlip := flip, depthOffsets := offs, blockDepth := bd,
+                    weightData := wdata, scaleData := sdata } = wccKey r := rfl
+
+/-- Hence any encoder that looks at the IFM bit depth (the real one does: IFM block depth 16 vs 32, and
+    the traversal choice) makes reuse unsound: int8 request first, int16 request second, same weight
+    tensor — the second is answered with the first one's encoding.  The two-level look-up of the
+    model classifies the second request as a weights-only hit. -/
+theorem cache_stale_witness :
+    wccKey reqInt8 = wccKey reqInt16 ∧
+    cachedRun wccKey (fun r => r.ifmBits) [] [reqInt8, reqInt16] = [(reqInt8, 8), (reqInt16, 8)] ∧
+    cacheOutcomes [] [reqInt8, reqInt16] = [.miss, .hitWeights] := by
+  decide
+
+/-! ## Non-vacuity -/
+
+example : ValidReq (reqOf witnessCfg [0, 4, 8]) ∧ RegularSlices (reqOf witnessCfg [0, 4, 8]) := by decide
+example : (encodeTensor witnessCfg [0, 4, 8]).toOption.map (fun out => out.ranges.map fun r => (r.core, r.depth, r.scaleCh, r.weightCh))
+    = some [(0, 0, [0, 2], [0, 2]), (1, 0, [1, 3], [1, 3]), (0, 4, [4, 6], [4, 6]), (1, 4, [5, 7], [5, 7])] := by
+  decide +kernel
+example : (encodeTensor witnessCfg [0, 4, 8]).toOption.map
+    (fun out => decide (LayoutOk (reqOf witnessCfg [0, 4, 8]) (artefactOf witnessCfg out))) = some true := by
+  decide +kernel
+example : (encodeBias (-684) 1167018453 39).toOption = some [0x54, 0xfd, 0xff, 0xff, 0xff, 0xd5, 0x49, 0x8f, 0x45, 0x27] := by decide
+example : decodeRecord [0x54, 0xfd, 0xff, 0xff, 0xff, 0xd5, 0x49, 0x8f, 0x45, 0x27] = some ⟨-684, 1167018453, 39⟩ := by decide
+example : (encodeTensor unevenCfg [0, 1, 3]).toOption.map
+    (fun out => (createWeights 1 out.rawRanges 4096 none none 1, createDmaOp 1 out.rawRanges 4096 64 1))
+    = some (some ([⟨4160, 32⟩], [⟨4128, 32⟩]), some (⟨4128, 64⟩, ⟨64, 64⟩)) := by
+  decide +kernel
 
 end VelaVerif.Props.C08
